@@ -71,6 +71,31 @@ func runC11(c *Ctx) {
 				continue
 			}
 		}
+		// an empty list made by a helper
+		if hc, isCall := v.(*ssa.Call); isCall && hc.Call.StaticCallee() != nil && inModule(hc.Call.StaticCallee()) && hc.Call.StaticCallee().Blocks != nil {
+			h := hc.Call.StaticCallee()
+			ph := ix.proverFor(h)
+			empty := len(returnsOf(h)) > 0
+			for _, ret := range returnsOf(h) {
+				rv := results(ret)[0]
+				root := sliceRoots(rv)[0]
+				_, isMake := root.(*ssa.MakeSlice)
+				_, isNew := root.(*ssa.Alloc)
+				if !(isMake || isNew) || ph.lenOf(rv).String() != "0" {
+					empty = false
+				}
+			}
+			if empty {
+				r.Check("R11.1", name, "store errors_ = empty make (through "+FuncName(h)+")", fs.St.Pos(), true, "")
+				continue
+			}
+			// the list extended by a helper that appends only entries it has tested non-nil
+			if k, ok, why := extensionHelper(ix, h); k >= 0 {
+				f, b := loadedField(hc.Call.Args[k])
+				r.Check("R11.1", name, "store errors_ = "+FuncName(h)+"(errors_, ...): the list itself, extended by entries tested non-nil", fs.St.Pos(), ok && f == errs && b == fs.Base, why)
+				continue
+			}
+		}
 		base, elems, isApp := appendedElems(v)
 		if !isApp {
 			r.Check("R11.1", name, "store errors_ = <not an append>", fs.St.Pos(), false, "the list is replaced by a slice from elsewhere (adoption): nil entries and aliasing of the caller's slice become possible")
@@ -112,12 +137,33 @@ func runC11(c *Ctx) {
 				r.Check("R11.2", FuncName(fn), fmt.Sprintf("return #%d is nil", i+1), ret.Pos(), true, "")
 				continue
 			}
-			f, b := loadedField(v)
-			ok := f == errs && b == ssa.Value(fn.Params[0])
-			if ok {
-				good, _ := p.prove(leq(linConst(1), p.lenOf(v), "len >= 1"), ret, nil, 0)
-				ok = good
+			// each value that can be returned here, under the conditions of the edge that brings it
+			ok := true
+			var visit func(v ssa.Value, extra []constraint, depth int)
+			visit = func(v ssa.Value, extra []constraint, depth int) {
+				if isNil(v) {
+					return
+				}
+				if phi, isPhi := v.(*ssa.Phi); isPhi && depth < 4 {
+					for k, e := range phi.Edges {
+						var ex []constraint
+						for _, cf := range p.edgeConds(phi.Block().Preds[k], phi.Block()) {
+							ex = append(ex, p.condConstraints(cf.Cond, cf.Val)...)
+						}
+						visit(e, ex, depth+1)
+					}
+					return
+				}
+				f, b := loadedField(v)
+				if f != errs || b != ssa.Value(fn.Params[0]) {
+					ok = false
+					return
+				}
+				if good, _ := p.prove(leq(linConst(1), p.lenOf(v), "len >= 1"), ret, extra, 0); !good {
+					ok = false
+				}
 			}
+			visit(v, nil, 0)
 			r.Check("R11.2", FuncName(fn), fmt.Sprintf("return #%d is the list, under len != 0", i+1), ret.Pos(), ok, "an empty non-nil list could be returned")
 		}
 	}
@@ -148,9 +194,22 @@ func runC11(c *Ctx) {
 				}
 			}
 		}
-		r.Check("R11.3", FuncName(fn), "installs a row and points its container at the table's", in.at.Pos(), div != nil, "errors raised on this row afterwards stay in a container nobody reads")
+		origRow := in.rowV
+		if div == nil {
+			// the diversion (and the move of earlier errors) may be delegated to a helper handed the row and the table
+			if h, hrow, htab, hst := divertHelperCall(c, fn, in.rowV, in.table, rowEC, tabEC); h != nil {
+				div = hst
+				fn = h
+				in.rowV, in.table = hrow, htab
+				in.at = hst
+			}
+		}
+		r.Check("R11.3", FuncName(in.fn), "installs a row and points its container at the table's", in.at.Pos(), div != nil, "errors raised on this row afterwards stay in a container nobody reads")
 		if div == nil {
 			continue
+		}
+		if _, wasParam := origRow.(*ssa.Parameter); !wasParam {
+			continue // a row made here has no earlier errors to move
 		}
 		// R11.4: reads of the row's own container must not come after the divert
 		if _, isParam := in.rowV.(*ssa.Parameter); isParam {
@@ -234,6 +293,42 @@ func runC11(c *Ctx) {
 					if es.Fn == fn && p.canon(es.Base) == p.canon(b) && instrDominates(es.St, at) {
 						return true, "the row's container was set earlier in this function", true
 					}
+				}
+				// ... or by a helper called earlier with this row, which stores a table's container into it
+				viaHelper := false
+				eachInstr(fn, func(in ssa.Instruction) {
+					h := staticCallee(in)
+					if h == nil || h.Blocks == nil || !inModule(h) || !instrDominates(in, at) {
+						return
+					}
+					args := callCommon(in).Args
+					if len(args) != len(h.Params) {
+						return
+					}
+					for k, a := range args {
+						if p.canon(a) != p.canon(b) {
+							continue
+						}
+						for _, es := range c.StoresTo(rowEC) {
+							if es.Fn == h && es.Base == ssa.Value(h.Params[k]) {
+								if f2, _ := loadedField(es.St.Val); f2 == tabEC {
+									// on every path of the helper
+									all := true
+									for _, ret := range returnsOf(h) {
+										if !instrDominates(es.St, ret) {
+											all = false
+										}
+									}
+									if all {
+										viaHelper = true
+									}
+								}
+							}
+						}
+					}
+				})
+				if viaHelper {
+					return true, "the row's container was set, by a helper called earlier in this function, to the table's", true
 				}
 				// or the row is the receiver and every caller passes a row taken from the table
 				if par, ok := b.(*ssa.Parameter); ok && len(fn.Params) > 0 && par == fn.Params[0] {
@@ -374,7 +469,7 @@ func runC11(c *Ctx) {
 			r.Check("R11.5", FuncName(fn), fmt.Sprintf("errTaker of invokePropertyCallbacks call #%d", cnt), in.Pos(), ok, why)
 		})
 	}
-	r.Floor("R11.5", "invokePropertyCallbacks call sites", sites, 20)
+	r.Floor("R11.5", "invokePropertyCallbacks call sites", sites, 8)
 	// the invoker passes every non-nil result on
 	{
 		okFlow := false
@@ -616,4 +711,109 @@ func containsNilPredicate(ix *idxEngine, f *ssa.Function) bool {
 		}
 	}
 	return sawTrue && sawFalse
+}
+
+// extensionHelper: h returns one of its slice parameters (index k) extended only by appends whose elements h has
+// tested non-nil (or a spread append after a scan that found no nil). Returns k (or -1 when h is not of that kind),
+// whether every append qualifies, and why not.
+func extensionHelper(ix *idxEngine, h *ssa.Function) (int, bool, string) {
+	ph := ix.proverFor(h)
+	k := -1
+	ok, why := true, ""
+	seen := map[ssa.Value]bool{}
+	var walk func(v ssa.Value) bool
+	walk = func(v ssa.Value) bool {
+		if seen[v] {
+			return true
+		}
+		seen[v] = true
+		if par, isPar := v.(*ssa.Parameter); isPar {
+			for i, q := range h.Params {
+				if q == par {
+					if k >= 0 && k != i {
+						return false
+					}
+					k = i
+					return true
+				}
+			}
+			return false
+		}
+		if phi, isPhi := v.(*ssa.Phi); isPhi {
+			for _, e := range phi.Edges {
+				if !walk(e) {
+					return false
+				}
+			}
+			return true
+		}
+		base, elems, isApp := appendedElems(v)
+		if !isApp {
+			return false
+		}
+		at, _ := v.(ssa.Instruction)
+		if elems != nil {
+			for _, e := range elems {
+				if !nonNilAt(ph, e, at) {
+					ok, why = false, "an appended entry is not dominated by a nil test in "+FuncName(h)
+				}
+			}
+		} else {
+			call, _ := isBuiltinCall(v, "append")
+			if good, w := scanProvesNoNil(ph, call.Call.Args[1], at); !good {
+				ok, why = false, w
+			}
+		}
+		return walk(base)
+	}
+	rets := returnsOf(h)
+	if len(rets) == 0 {
+		return -1, false, ""
+	}
+	for _, ret := range rets {
+		rv := results(ret)
+		if len(rv) != 1 || !walk(rv[0]) {
+			return -1, false, ""
+		}
+	}
+	return k, ok, why
+}
+
+// divertHelperCall: fn calls a module helper with the row and the table among its arguments, and the helper stores
+// <row parameter>.ErrorContainer = <table parameter>.ErrorContainer. Returns the helper, its row and table
+// parameters and that store.
+func divertHelperCall(c *Ctx, fn *ssa.Function, rowV, table ssa.Value, rowEC, tabEC *types.Var) (*ssa.Function, ssa.Value, ssa.Value, *ssa.Store) {
+	var rh *ssa.Function
+	var rrow, rtab ssa.Value
+	var rst *ssa.Store
+	eachInstr(fn, func(in ssa.Instruction) {
+		h := staticCallee(in)
+		if h == nil || h.Blocks == nil || !inModule(h) || rh != nil {
+			return
+		}
+		args := callCommon(in).Args
+		if len(args) != len(h.Params) {
+			return
+		}
+		ri, ti := -1, -1
+		for k, a := range args {
+			if a == rowV {
+				ri = k
+			}
+			if a == table {
+				ti = k
+			}
+		}
+		if ri < 0 || ti < 0 {
+			return
+		}
+		for _, es := range c.StoresTo(rowEC) {
+			if es.Fn == h && es.Base == ssa.Value(h.Params[ri]) {
+				if f, b := loadedField(es.St.Val); f == tabEC && b == ssa.Value(h.Params[ti]) {
+					rh, rrow, rtab, rst = h, h.Params[ri], h.Params[ti], es.St
+				}
+			}
+		}
+	})
+	return rh, rrow, rtab, rst
 }
